@@ -104,7 +104,7 @@ impl ClientLoop {
     }
 
 // one transaction: format, write once, wait for the reply with this transaction id or the deadline
-//@fn rodbus/src/client/task.rs | ClientLoop::execute_request | tags=C03,C04,C10,C11,C12,C20 | r3 r3id r10=0,1 r10id=0 r18ty=response:crate::common::frame::Frame | attr=#[verifier::exec_allows_no_decreases_clause]
+//@fn rodbus/src/client/task.rs | ClientLoop::execute_request | tags=C03,C04,C10,C11,C12,C20 | r3 r3id r21 r10=0,1 r10id=0 r18ty=response:crate::common::frame::Frame | attr=#[verifier::exec_allows_no_decreases_clause] #[verifier::loop_isolation(false)] #[verifier::allow_complex_invariants]
 //@|    requires old(self).wf(), old(request).details.wf(),
 //@|    ensures final(self).wf(), final(self).same_config(old(self)), final(self).tx_id == old(self).tx_id, final(self).timeout_counter == old(self).timeout_counter,
 //@|        final(request).id == old(request).id, final(request).timeout == old(request).timeout, final(request).details.same_request(&old(request).details),
@@ -127,9 +127,14 @@ impl ClientLoop {
 //@loop 0|                    && frame_ok(old(self).writer.is_tcp(), io.sent.last(), io.sent.last().len() as int,
 //@loop 0|                         FrameHeader { destination: crate::common::frame::FrameDestination::UnitId(old(request).id), tx_id: Some(tx_id) },
 //@loop 0|                         crate::common::function::spec_fc_value(old(request).details.spec_function()), &old(request).details),
+//@loop 0|                // [C12] while the reply is awaited the clock never passes (transmission instant + the request's own timeout)
+//@loop 0|                clk__.t <= t_send + crate::nanos(request.timeout),
 //@loop 0|            ensures response.wf(),
 //@loop 0|                // [C11] a reply whose transaction id differs from the outstanding request's never becomes its result
 //@loop 0|                response.header.tx_id matches Some(t) ==> t == tx_id,
+//@beforeloop 0| broadcast use crate::axiom_nanos_nonneg; let ghost t_send = clk__.t;
+//@timer 0| // [C12] the request times out exactly when its own timeout has elapsed since transmission (one deadline, never re-armed)
+//@timer 0| assert(clk__.t == t_send + crate::nanos(request.timeout));
 
 // [C10] exactly one completion per request taken; [C11] one transaction id per request; [C12] the consecutive-timeout rule
 //@fn rodbus/src/client/task.rs | ClientLoop::run_one_request | tags=C10,C11,C12,C20 | r10=0 r10id=0
@@ -177,10 +182,14 @@ impl ClientLoop {
 //@|        final(self).writer.is_tcp() == old(self).writer.is_tcp(),
 //@loop 0|            invariant self.wf(), self.tx_id == old(self).tx_id, self.writer.is_tcp() == old(self).writer.is_tcp(),
 
-//@fn rodbus/src/client/task.rs | ClientLoop::fail_requests_for | tags=C13,C14 | r3
+//@fn rodbus/src/client/task.rs | ClientLoop::fail_requests_for | tags=C13,C14 | r3 r21
 //@|    requires old(self).wf(),
 //@|    ensures final(self).wf(), final(self).tx_id == old(self).tx_id, r matches Err(StateChange::Disable) ==> !final(self).enabled,
 //@|        final(self).writer.is_tcp() == old(self).writer.is_tcp(),
+//@entry| broadcast use crate::axiom_nanos_nonneg; let ghost t0 = clk__.t; let ghost mut waited = false;
+//@timer 0| // [C14] the delay asked for is the delay actually waited: Ok is returned exactly `duration` after the call, never earlier
+//@timer 0| waited = true; assert(clk__.t == t0 + crate::nanos(duration));
+//@exit *| assert(r__ is Ok ==> waited);
 
 //@fn rodbus/src/client/task.rs | ClientLoop::wait_for_enabled | tags=C13 | attr=#[verifier::exec_allows_no_decreases_clause]
 //@|    requires old(self).wf(),
